@@ -18,19 +18,20 @@ PatExpected(r, lb) ==
     LET p  == r.in.p
         ns == r.in.ns
         ok == CompileOk(p)
-    IN [ok |-> TF(ok), m |-> [i \in 1..Len(ns) |-> TF(ok /\ MatchL(p, ns[i], lb))]]
+        m  == [i \in 1..Len(ns) |-> TF(ok /\ MatchL(p, ns[i], lb))]
+    IN [ok |-> TF(ok), m |-> m, bm |-> m]      \* bm: best_match(n, n) is Some(n) iff n matches (BestSelfL)
 DewExpected(r, lb) ==
     LET p  == r.in.p
         ns == r.in.ns
         d  == DeweyNew(p)
     IN [dok |-> TF(d.ok), dm |-> [i \in 1..Len(ns) |-> TF(d.ok /\ DeweyMatchesL(d, ns[i], lb))]]
 
-PatObserved(r) == [ok |-> r.out.ok, m |-> r.out.m]
+PatObserved(r) == [ok |-> r.out.ok, m |-> r.out.m, bm |-> r.out.bm]
 DewObserved(r) == [dok |-> r.out.dok, dm |-> r.out.dm]
 
 InDomainNames(p, ns) == ~LongRun(p) /\ \A i \in 1..Len(ns) : ~LongRun(ns[i])
 PatVerdict(r) ==
-    IF ~Shape(r.out, {"ok", "m"}) THEN "bad"
+    IF ~Shape(r.out, {"ok", "m", "bm"}) THEN "bad"
     ELSE IF ~Judged(r.in.p) \/ ~InDomainNames(r.in.p, r.in.ns) THEN "ok"
     ELSE LET flat == ~HasAnyOf(r.in.p, {LBRACE, RBRACE})
              okD(lb) == ~flat \/ (Shape(r.out, {"dok", "dm"}) /\ DewObserved(r) = DewExpected(r, lb))
